@@ -193,12 +193,24 @@ def run(tier, seed):
     if not okh:
         res.tie_broken("harness build failed", hlog[-1500:])
         return res.finish({"obligations": info["obligations"], "discharged": info["discharged"], "checker_cmd": "make", "trusted_base": TRUSTED_COMMON}, [])
-    nh = 200 if tier == "quick" else 6000
+    nh = 80 if tier == "quick" else 6000
     hs = [gen_history(rnd, tier) for _ in range(nh)]
     # corpus first: the repository's own Japanese test trie, which forces a relocation
     hs.insert(0, {"op": "trie_history", "alphabet": "じっしつてきになさい", "ops": [{"ins": k, "dump": True} for k in
                   ["じっしつ", "じっしつてき", "じっしつてきに", "じっしつてきな", "じって", "じっさい"]],
                   "probes": ["じっしつてきに", "じっしつて", "じっしつ", "じっしつてき", "じっしつてきな", "じって", "じっさい", "", "じ"], "dump_each": False})
+    # the largest alphabets the property admits (254 and 253 characters), with histories that force relocations
+    big = [chr(c) for c in range(0x4E00, 0x4E00 + 254)]
+    for n_alpha in (254, 253):
+        al = "".join(big[:n_alpha])
+        ks = []
+        for _ in range(14):
+            b = rnd.choice(ks) if ks and rnd.random() < 0.6 else ""
+            ks.append(b[:rnd.randint(0, len(b))] + "".join(rnd.choice(al[-6:] + al[:6]) for _ in range(rnd.randint(1, 3))))
+        pr = set(ks)
+        for k in ks:
+            pr.update(k[:i] for i in range(len(k)))
+        hs.insert(1, {"op": "trie_history", "alphabet": al, "ops": [{"ins": k, "dump": False} for k in ks], "probes": sorted(pr), "dump_each": False})
     rs = harness_parallel(hs, chunk=max(1, len(hs) // 16))
     nt, ins_total, reloc = 0, 0, 0
     for h, r in zip(hs, rs):
@@ -232,7 +244,7 @@ def run(tier, seed):
                 "every insertion replayed in the Coq model with the implementation's own free-slot choices and compared array-for-array; non-trivial = a relocation happened and two keys are prefix-related",
         "traces_validated_against_impl": n_model,
         "insertions": ins_total,
-        "samples": [{"alphabet": hs[1]["alphabet"], "ops": hs[1]["ops"][:8]}, {"alphabet": hs[0]["alphabet"], "ops": hs[0]["ops"]}],
+        "samples": [{"alphabet": hs[5]["alphabet"], "ops": hs[5]["ops"][:8]}, {"alphabet": hs[0]["alphabet"], "ops": hs[0]["ops"]}],
     }
     return res.finish(cov, ["postcard round trip observed, not proved", "each run samples fresh HashSet seeds, i.e. different layouts"])
 
